@@ -105,6 +105,10 @@ pub struct Model<'a> {
     /// canonical paths of roots that were named by a non-canonical spelling:
     /// how #once and cycle bookkeeping identify such a root is not specified
     pub noncanon_roots: BTreeSet<String>,
+    /// label bookkeeping of the test programs themselves (in splice order)
+    pub globals: BTreeSet<u8>,
+    pub locals: BTreeSet<u8>,
+    pub have_global: bool,
 }
 
 pub enum Stop {
@@ -114,7 +118,7 @@ pub enum Stop {
 
 impl<'a> Model<'a> {
     pub fn new(case: &'a Case, builtins: Vec<&'a str>) -> Model<'a> {
-        Model { case, builtins, once_done: BTreeSet::new(), stack: Vec::new(), bits: String::new(), expansions: BTreeMap::new(), touched: BTreeSet::new(), steps: 0, noncanon_roots: BTreeSet::new() }
+        Model { case, builtins, once_done: BTreeSet::new(), stack: Vec::new(), bits: String::new(), expansions: BTreeMap::new(), touched: BTreeSet::new(), steps: 0, noncanon_roots: BTreeSet::new(), globals: BTreeSet::new(), locals: BTreeSet::new(), have_global: false }
     }
 
     fn byte_bits(&mut self, b: u8) {
@@ -139,7 +143,7 @@ impl<'a> Model<'a> {
             }
         };
         *self.expansions.entry(path.to_string()).or_insert(0) += 1;
-        if self.expansions[path] > 1 && file.items.iter().any(|i| matches!(i, Item::IncFn { via: Via::ConstPath, .. } | Item::IncFn { via: Via::UnusedConst, .. })) {
+        if self.expansions[path] > 1 && file.items.iter().any(|i| matches!(i, Item::IncFn { via: Via::ConstPath, .. } | Item::IncFn { via: Via::UnusedConst, .. } | Item::IncFn { via: Via::LabelRange, .. })) {
             // the rendering declares a constant per such item: a second splice
             // re-declares it, which is an error of the test program itself
             return Err(Stop::Unspecified("file declaring a path constant spliced twice".to_string()));
@@ -151,6 +155,25 @@ impl<'a> Model<'a> {
         self.stack.push(path.to_string());
         for item in &file.items {
             match item {
+                Item::Label { local, id } => {
+                    if self.bits.len() % 8 != 0 {
+                        return Err(Stop::Unspecified("label at an unaligned position".to_string()));
+                    }
+                    if *local {
+                        if !self.have_global {
+                            return Err(Stop::Unspecified("local label without a global one before it".to_string()));
+                        }
+                        if !self.locals.insert(*id) {
+                            return Err(Stop::Unspecified("local label declared twice under one global label".to_string()));
+                        }
+                    } else {
+                        if !self.globals.insert(*id) {
+                            return Err(Stop::Unspecified("global label declared twice".to_string()));
+                        }
+                        self.have_global = true;
+                        self.locals.clear();
+                    }
+                }
                 Item::Marker(b) => self.byte_bits(*b),
                 Item::Include(sp) | Item::IfInclude(sp) => match resolve(path, sp, &self.builtins) {
                     Resolved::Err(e) => return Err(Stop::Error(e)),
@@ -173,13 +196,13 @@ impl<'a> Model<'a> {
                     }
                 },
                 Item::IncFn { kind, spelling, start, len, via } => {
-                    let needs_defs = !matches!(via, Via::Direct | Via::ConstPath | Via::Assert | Via::UnusedConst);
+                    let needs_defs = !matches!(via, Via::Direct | Via::ConstPath | Via::Assert | Via::UnusedConst | Via::LabelRange);
                     if needs_defs && !self.case.defs_path.as_ref().map(|d| self.expansions.contains_key(d)).unwrap_or(false) {
                         return Err(Stop::Unspecified("definitions file not included before use".to_string()));
                     }
                     let container = match via {
                         // the path string stands in the file itself
-                        Via::Direct | Via::Arg | Via::NestedArg | Via::ConstPath | Via::Assert | Via::UnusedConst => path.to_string(),
+                        Via::Direct | Via::Arg | Via::NestedArg | Via::ConstPath | Via::Assert | Via::UnusedConst | Via::LabelRange => path.to_string(),
                         _ => match &self.case.defs_path {
                             Some(d) if self.expansions.contains_key(d) => d.clone(),
                             _ => return Err(Stop::Unspecified("definitions file not included before use".to_string())),
@@ -266,6 +289,17 @@ impl<'a> Model<'a> {
                     if !emits {
                         // the call stands in a directive that emits nothing
                         self.bits.truncate(bits_before);
+                    }
+                    if *via == Via::LabelRange {
+                        if let Some(s) = start {
+                            // two labels after the call, `start` zero bytes between them
+                            if self.bits.len() % 8 != 0 {
+                                return Err(Stop::Unspecified("label at an unaligned position".to_string()));
+                            }
+                            for _ in 0..*s {
+                                self.byte_bits(0);
+                            }
+                        }
                     }
                 }
             }
